@@ -416,7 +416,36 @@ def rule_crc(run):
     run.end()
 
 
-RULES = [rule_fold, rule_layout, rule_first, rule_width, rule_mask, rule_crc]
+def rule_choose_first(run):
+    run.begin(
+        "C18.choose",
+        "choose_first((c0, v0), (c1, v1), ..., default=d) yields the value of the FIRST pair whose condition holds and d "
+        "when none does - for every truth assignment of up to 4 conditions (abstract evaluation of _first_impl)",
+        floor=30,
+    )
+    mod = run.idx.mod(CU)
+    f = mod.func("_first_impl")
+    for n in range(0, 5):
+        for bits in itertools.product((False, True), repeat=n):
+            pairs = [(b, f"v{i}") for i, b in enumerate(bits)]
+            exp = next((v for c, v in pairs if c), "d")
+            try:
+                got = Interp(mod, {"len": len}).call_function("_first_impl", *pairs, default="d")
+            except Reject as e:
+                got = f"rejected: {e}"
+            run.ob(got == exp, "_first_impl", file=mod.rel, line=f.node.lineno, detail="conds=" + "".join("T" if b else "F" for b in bits), expected=exp, found=str(got), sample=(bits == (False, True, True)))
+    cf = mod.func("_ChooseFirst.__call__")
+    ok = P.T(cf.node.body[-1]) == "return self._checked(_first_impl(*args, default=default))"
+    run.ob(ok, "_ChooseFirst.__call__", file=mod.rel, line=cf.node.lineno, detail="delegates", expected="_first_impl(*args, default=default)", found=src(cf.node.body[-1])[:80])
+    run.end()
+
+
+def rule_views(run):
+    from ..rules import views
+    views.run_rule(run, "F-VIEW")   # the helpers slice their operands: a slice of a slice must address the right bits
+
+
+RULES = [rule_fold, rule_layout, rule_first, rule_width, rule_mask, rule_crc, rule_choose_first, rule_views]
 LEVEL = "other"
 EXPLANATION = (
     "The std helpers are interpreted abstractly (sa/absint.py walks their ASTs; cohdl is never imported) over symbolic "
